@@ -51,6 +51,24 @@ CLAIMED = {
             "successful reply is followed by the member's SyncGroup carrying the identity the reply assigned; error handling resets "
             "generation / marks the coordinator dead / requests a rejoin as the protocol demands; the rejoin future is re-armed before "
             "SyncGroup; heartbeat task lifetime. Convergence (liveness) is not decided."),
+    "C05": ("CFG path rules (gate test on every path from the loop head to the hand-out, no foreign suspension), dominance over exits, "
+            "who-writes tables, def-use chains, symbolic evaluation of the member tuple per JoinGroup version",
+            "Decides: the reassignment gate is closed first thing in the revoke step, released only by _assign and tested inside the hand-out "
+            "loops; the revoke step precedes JoinGroup and every non-trivial exit of ensure_active_group; the member installs exactly the "
+            "decoded SyncGroup assignment before the assigned-callback; the leader feeds all members to the agreed assignor and forwards all "
+            "pairs; stale data is dropped. Pairwise disjointness (assignor output) and the group-wide barrier are not decided."),
+    "C04": ("argument-flow and no-suspension rules on every commit site, who-writes table of the position and generator ordering rules "
+            "(shared with C03), gate path rules (shared with C05), dominance order of the revoke step, error-before-payload path rule on "
+            "the OffsetFetch reply",
+            "Decides: every automatic / default commit sends the consumed positions computed at that moment; the position moves only at "
+            "hand-out (to next_fetch_offset) or past proven-invisible batches; hand-out is atomic and gated during rebalance; gate -> last "
+            "commit -> revoke order; commit identity is current; an errored OffsetFetch entry is never taken as 'nothing committed'. The "
+            "group-wide at-least-once consequence across crashes is not decided."),
+    "C13": ("path rule 'every effect is separated from every suspension point by a re-test', state-transition stores, policy-arm dominance, "
+            "symbolic evaluation of the ListOffsets reply per version, def-use of the asked-partitions list",
+            "Decides: a seek() landing during the committed-offset lookup or the ListOffsets round-trip wins; the policy arms (committed / "
+            "unknown / out of range x latest|earliest|none) do what the property states; sentinels -1/-2; reply shape v0..v3; committed "
+            "offsets are answered for exactly the partitions asked about. That the broker's offsets are right is not decided."),
 }
 
 NA = {
